@@ -875,6 +875,42 @@ func init() {
 		e.ghostTerm["time.Now"] = v
 		return Struct{Sc{}, Sc{T: v}, (*Value)(nil)}
 	})
+	// time.Date with symbolic fields: the calendar arithmetic of the library is not encoded; the result is a Time
+	// whose seconds are an injective packing of (year, month, day, hour, min, sec, zone offset), so that two
+	// Dates are Equal iff they were built from the same fields.  Concrete arguments run the real code.
+	reg("time.Date", func(e *Exec, c *frame, fn *ssa.Function, a []Value) Value {
+		sym := false
+		for i := 0; i < 7; i++ {
+			if a[i].(Sc).T != nil {
+				sym = true
+			}
+		}
+		off := Sc{}
+		if lp, ok := a[7].(*Value); ok && lp != nil {
+			if loc, ok := (*lp).(Struct); ok && len(loc) > 1 {
+				if zs, ok := loc[1].(Slice); ok && len(zs) > 0 {
+					off = zs[0].(Struct)[1].(Sc)
+				}
+			}
+		}
+		if off.T != nil {
+			sym = true
+		}
+		if !sym {
+			return e.runFunc(c, fn, e.P.info(fn), a, nil)
+		}
+		e.intrHit["time.Date-injective-packing"]++
+		ki := kindInfo{w: 64, isInt: true, signed: true}
+		t64 := types.Typ[types.Int64]
+		acc := Sc{}
+		for i, w := range []uint64{16, 5, 7, 7, 7, 7} { // year, month, day, hour, min, sec: shifted fields
+			acc = e.intBinop(token.MUL, ki, acc, Sc{C: 1 << w}, t64).(Sc)
+			acc = e.intBinop(token.ADD, ki, acc, a[i].(Sc), t64).(Sc)
+		}
+		acc = e.intBinop(token.MUL, ki, acc, Sc{C: 1 << 20}, t64).(Sc)
+		acc = e.intBinop(token.ADD, ki, acc, off, t64).(Sc)
+		return Struct{Sc{}, acc, a[7]}
+	})
 	// Time.Sub / Duration.Seconds on symbolic instants: whole seconds, no overflow (the clock model is bounded to 1970..2100)
 	reg("(time.Time).Sub", func(e *Exec, c *frame, fn *ssa.Function, a []Value) Value {
 		t, u := a[0].(Struct), a[1].(Struct)
